@@ -32,8 +32,8 @@ def plan(tier, seed):
 
 
 def floors(tier):
-    return {"evaluations": 20000, "strata": ["linear", "time", "time+calendar-edge"],
-            "events": {"LinearScale.nice": 20000, "TimeScale.nice": 8000, "calendar.calls": 10000}, "distinct_nontrivial": 5000,
+    return {"evaluations": 8000, "strata": ["linear", "time", "time+calendar-edge"],
+            "events": {"LinearScale.nice": 6000, "TimeScale.nice": 3000, "calendar.calls": 10000}, "distinct_nontrivial": 5000,
             "paths": ["tickMethod.row12", "tickMethod.row15", "tickMethod.row17", "tickMethod.multi-year", "tickMethod.milliseconds"]}
 
 
